@@ -49,7 +49,13 @@ def run(ctx):
 def replay(ctx, rp):
     ev = rp["detail"]["event"]
     print("recorded size event:", {k: ev[k] for k in ("fmt", "n", "p", "pk", "ok", "clen")})
+    if ev["p"] > 0:
+        ctx.seed = rp.get("seed", ctx.seed)     # the pattern is derived from (seed, p, pk, n)
+        b = ctx.build("release", c08.BIN)
+        opath = ctx.path("one.ndjson")
+        ctx.harness(b, ["sizeone", ev["fmt"], str(ev["p"]), str(ev["pk"]), str(ev["n"]), opath])
+        ev = vlib.read_ndjson(opath)[0]
+        print("measured now:      ", {k: ev[k] for k in ("fmt", "n", "p", "pk", "ok", "clen")})
     bad, _ = c08.trace_check(ctx, [ev], "replay")
     if bad:
-        print("TLC rejects the recorded event (bound violated); to re-measure run ./check C10 --seed %s" % rp.get("seed"))
-        ctx.violation(rp["sig"], rp["detail"])
+        ctx.violation(rp["sig"], {"event": ev})
